@@ -1012,7 +1012,7 @@ var dateRE = regexp.MustCompile(`^\d{4}-\d{2}-\d{2}$`)
 // EntriesFromRDF creates entries from RDF dataset suitable to add to
 // merkle tree
 func EntriesFromRDF(ds *ld.RDFDataset) ([]RDFEntry, error) {
-	return EntriesFromRDFWithHasher(ds, defaultHasher)
+	return EntriesFromRDFWithHasher(ds, nil)
 }
 
 // EntriesFromRDFWithHasher creates entries from RDF dataset suitable to add to with a provided Hasher
@@ -1030,6 +1030,8 @@ func EntriesFromRDFWithHasher(ds *ld.RDFDataset,
 		return nil, errors.New("@default graph not found in dataset")
 	}
 
+	// entries keep the hasher they were built with; nil means the default one
+	entryHasher := hasher
 	if hasher == nil {
 		hasher = defaultHasher
 	}
@@ -1053,7 +1055,7 @@ func EntriesFromRDFWithHasher(ds *ld.RDFDataset,
 			if err != nil {
 				return err
 			}
-			var e RDFEntry
+			e := RDFEntry{hasher: entryHasher}
 			switch qo := q.Object.(type) {
 			case *ld.Literal:
 				if qo == nil {
